@@ -142,6 +142,7 @@ stepE InvE.s_sRelErr .sRelErr => outE
 stepE InvE.s_lCnt .lCnt => outE
 stepE InvE.s_cWf .cWf => outE
 stepE InvE.s_cCnt .cCnt => outE
+stepE InvE.s_xClose .xClose => outE
 stepE InvE.s_iRel .iRel => outE
 stepE InvE.s_sIdxLen1 .sIdxLen1 => split at hs0 <;> outE
 stepE InvE.s_sIdxGet .sIdxGet => split at hs0 <;> outE
@@ -303,6 +304,7 @@ theorem InvE.step {scripts : List (List Op)} {s s' : St} {i : Nat} (hA : InvA sc
     | fCntZero => exact InvE.s_fCntZero hA hB hE hp hpc hs
     | fWfZero => exact InvE.s_fWfZero hA hB hE hp hpc hs
     | fRel => exact InvE.s_fRel hA hB hE hp hpc hs
+    | xClose => exact InvE.s_xClose hA hB hE hp hpc hs
 
 theorem InvE.init (presize : Nat) (scripts : List (List Op)) : InvE (start (init presize scripts)) := by
   constructor
